@@ -11,3 +11,5 @@ mod c15_lazy;
 mod c17_codecs;
 #[path = "/verif/kani/vecdb/model_vec.rs"]
 pub mod model_vec;
+#[path = "/verif/kani/vecdb/c08_cached.rs"]
+mod c08_cached;
